@@ -89,6 +89,19 @@ def pypy32_synthetic():
     return {"magic": 3187, "bytes": body, "file": "synthetic:pypy3.2-bytes-constants", "kind": "synthetic-pypy32", "ft": [], "pypy32": True}
 
 
+def py20_synthetic():
+    """a Python 2.0 code object (magic 50823): the 1.5-2.0 layout - 16-bit argcount/nlocals/stacksize/flags, no co_freevars / co_cellvars
+    (those came with nested scopes in 2.1), 16-bit first line.  No 2.0 interpreter or file exists here; the layout is CPython 2.0's marshal.c."""
+    import struct
+    h = lambda n: list(struct.pack("<h", n))
+    w = lambda n: list(struct.pack("<i", n))
+    s_ = lambda b: [ord("s")] + w(len(b)) + list(b)
+    tup = lambda items: [ord("(")] + w(len(items)) + [x for it in items for x in it]
+    body = ([ord("c")] + h(0) + h(0) + h(1) + h(0) + s_(b"\x7f\x00\x00d\x00\x00Z\x00\x00d\x01\x00S") + tup([[ord("i")] + w(1), [ord("N")]]) + tup([s_(b"x")]) + tup([])
+            + s_(b"a.py") + s_(b"?") + h(1) + s_(b""))
+    return {"magic": 50823, "bytes": body, "file": "synthetic:python-2.0-module", "kind": "synthetic-py20", "ft": []}
+
+
 def oracle_cases(r):
     cases, spec = [], []
     n = 3 if r.tier == "quick" else len(STDLIB)
@@ -117,7 +130,7 @@ def run(r):
         r.violation({"broken": broken or "proof obligation", "theorem_or_tie": "Props/C01.v", "log": "" if broken else r.build_failure_excerpt()},
                     found_input=False, name="C01-obligation.json")
     try:
-        cases = corpus_cases(r) + [pypy32_synthetic()]
+        cases = corpus_cases(r) + [pypy32_synthetic(), py20_synthetic()]
         oc, spec = oracle_cases(r)
         cases += oc
         for c in cases:
